@@ -3,6 +3,7 @@ package vsched
 import (
 	"cmp"
 	"fmt"
+	"iter"
 	"reflect"
 	"sort"
 )
@@ -58,5 +59,37 @@ func sortKeys[K comparable](keys []K) {
 		sort.SliceStable(keys, func(i, j int) bool {
 			return cmp.Less(fmt.Sprintf("%#v", keys[i]), fmt.Sprintf("%#v", keys[j]))
 		})
+	}
+}
+
+// SeqKeys / SeqValues / SeqAll stand in for maps.Keys / maps.Values / maps.All of the standard
+// library: the iteration order of a Go map is an explored environment choice there too.
+func SeqKeys[M ~map[K]V, K comparable, V any](m M, site string) iter.Seq[K] {
+	return func(yield func(K) bool) {
+		for _, k := range MapKeys(m, site) {
+			if !yield(k) {
+				return
+			}
+		}
+	}
+}
+
+func SeqValues[M ~map[K]V, K comparable, V any](m M, site string) iter.Seq[V] {
+	return func(yield func(V) bool) {
+		for _, k := range MapKeys(m, site) {
+			if v, ok := m[k]; ok && !yield(v) {
+				return
+			}
+		}
+	}
+}
+
+func SeqAll[M ~map[K]V, K comparable, V any](m M, site string) iter.Seq2[K, V] {
+	return func(yield func(K, V) bool) {
+		for _, k := range MapKeys(m, site) {
+			if v, ok := m[k]; ok && !yield(k, v) {
+				return
+			}
+		}
 	}
 }
